@@ -152,6 +152,11 @@ def make_any(rng: random.Random):
     if rng.random() < 0.2:
         h.title = "Δx title"
         flags["meta"] = True
+    if rng.random() < 0.12:
+        # custom entries whose names are also names of constructor arguments: entries, not arguments
+        for key_ in rng.sample(["dtype", "missed", "keep_missed", "stats", "dimension", "underflow", "overflow", "inner_missed", "axis_name", "binning", "errors2"], rng.randint(1, 3)):
+            h.meta_data[key_] = rng.choice(["float32", 3, False, [1, 2], "p_T [GeV]", {"k": 1.5}])
+        flags["meta"] = True
     try:
         m = float(h.missed) if not hasattr(h, "underflow") else float(h.underflow if h.underflow == h.underflow else 0) + float(h.overflow if h.overflow == h.overflow else 0)
         flags["missed"] = flags["missed"] or m > 0 or (hasattr(h, "underflow") and h.underflow != h.underflow)
